@@ -124,8 +124,8 @@ def univ : Universe where
 
 def alwaysSat : Oracle := ⟨Unit, (), fun _ _ => (.sat, ()), fun _ _ _ => "v"⟩
 
-theorem okA : ExprOk univ exA := ⟨by simp [exA, univ], by simp [exA], by simp [exA, symA]⟩
-theorem okX : ExprOk univ exX := ⟨by simp [exX, univ], by simp [exX, univ], by simp [exX, symX, symA, sortU]⟩
+def okA : ExprOk univ exA := ⟨by simp [exA, univ], by simp [exA], by simp [exA, symA]⟩
+def okX : ExprOk univ exX := ⟨by simp [exX, univ], by simp [exX, univ], by simp [exX, symX, symA, sortU]⟩
 
 def demoOps : List Api :=
   [.addAssertion exA, .push 2, .addAssertion exX, .solve, .getModel, .pop 1, .isSat exX, .getValue exA,
